@@ -64,6 +64,7 @@ func checkC20(c *Ctx, r *Report) {
 	escapeToggle(c, r, "C20.R4.escape-toggle", "normalizedString", "a capital letter behind an escaped backslash is not folded in the Dedup key: records that IsDuplicate calls equal are kept apart and their TTLs not merged")
 	copyKeepsType(c, r, "C20.R3.copy-type")
 	sliceLengthsCompared(c, r, "C20.R1.list-lengths")
+	headerNameOnlyCompared(c, r, "C20.R2.header-name")
 }
 
 // c20R5: sort.Slice(x, less): the less closure indexes x and nothing else with its two index parameters
